@@ -47,7 +47,32 @@ N = {'quick': 600, 'thorough': 60000}
 ROLES = ['a', 'b', 'c', 'd']
 SUBS = [[r for i, r in enumerate(ROLES) if m >> i & 1] for m in range(16)]
 LEAVES = ['role:a', 'role:b', 'role:c', 'role:d', '@', '!', "'x':%(k)s", 'rule:base', 'role:a', 'role:b']
-ODD_LEAVES = ['"x":%(k)s', 'role:é', 'role:a\\b', 'k:%(k)s"', "'y':%(k)s", 'role:"q"x']
+ODD_LEAVES = ['"x":%(k)s', 'role:é', 'role:a\\b', 'k:%(k)s"', "'y':%(k)s", 'role:"q"x',
+              # characters outside the basic multilingual plane (a JSON escape writes them as a surrogate pair)
+              'role:\U0001F600', 'role:\U0001D518x', "'\U00010348':%(k)s"]
+# credentials that hold the odd role names, so that an odd leaf mangled by a tool changes a decision
+ODD_CREDS = [['é'], ['a\\b'], ['"q"x'], ['\U0001F600'], ['\U0001D518x', 'a'], ['\U0001F600', 'b', 'é']]
+ALIAS_SPELLINGS = ['rule:%s', 'rule:%s', '(rule:%s)', ' rule:%s ', '((rule:%s))', [['rule:%s']], ['rule:%s']]
+
+
+def alias_of(rnd, name):
+    """`old: rule:<new>` in one of the spellings that parse to exactly that reference."""
+    sp = rnd.choice(ALIAS_SPELLINGS)
+    if isinstance(sp, str):
+        return sp % name
+    return [[x % name for x in sp[0]]] if isinstance(sp[0], list) else [sp[0] % name]
+
+
+def is_alias(v):
+    """Does the file value parse to a bare reference to a new:* policy? (judged on the text, without the library)"""
+    while isinstance(v, list) and len(v) == 1:
+        v = v[0]
+    if not isinstance(v, str):
+        return False
+    v = v.strip()
+    while v.startswith('(') and v.endswith(')'):
+        v = v[1:-1].strip()
+    return v.startswith('rule:new:') and ' ' not in v
 
 
 def gen_rule(rnd, depth, odd=0.0):
@@ -173,9 +198,9 @@ def gen_file(rnd, spec, allow_deprecated=True, allow_lists=True, odd=0.15, varia
             else:
                 f[nme] = gen_rule(rnd, 2, odd)
     if 'old:one' in f and rnd.random() < 0.35:
-        f['old:one'] = 'rule:new:one'
+        f['old:one'] = alias_of(rnd, 'new:one')
     if 'old:split' in f and rnd.random() < 0.25:
-        f['old:split'] = 'rule:new:split0'
+        f['old:split'] = alias_of(rnd, 'new:split0')
     for o, ss in succ.items():
         if o in f and any(s in f for s in ss):
             for s in ss:
@@ -202,8 +227,8 @@ def mgr_for(objs):
 def table(enf, names):
     out = {}
     for n in names:
-        for roles in SUBS:
-            for k in ('x', 'y'):
+        for roles in SUBS + ODD_CREDS:
+            for k in ('x', 'y', '\U00010348'):
                 try:
                     out['%s|%s|%s' % (n, ''.join(roles), k)] = bool(enf.enforce(n, {'k': k}, {'roles': list(roles)}))
                 except Exception as e:
@@ -223,9 +248,11 @@ def mechanism(tool, files_in, diff_names, exc=None):
     if tool == 'upgrade':
         if exc == 'KeyError' and 'old:split' in files_in:
             return 'upgrade-split-keyerror'
-        if any(isinstance(v, str) and v.startswith('rule:new:') for k, v in files_in.items() if k.startswith('old:')):
+        if any(is_alias(v) for k, v in files_in.items() if k.startswith('old:')):
             return 'upgrade-alias-self-reference'
         return 'upgrade-changes-decisions' if not exc else 'upgrade-crashes-' + exc
+    if any(isinstance(v, str) and any(ord(c) > 0xFFFF for c in v) for v in vals):
+        return 'rewrite-astral-character'
     if any(isinstance(v, list) for v in vals):
         return 'rewrite-list-rule'
     if any(has_odd(v) for v in vals):
